@@ -53,8 +53,11 @@ def frame(ctx, rep, cfgs=None):
         rep.rule('FRAME-1', 'inventory of static storage: every global / function-local static is either constant '
                  '(read-only after load) or in the setup-written set; no thread-local or function-local mutable statics')
         rep.instances(len(P.globals), 10, 'globals')
+        nstr = 0
         for g in P.globals.values():
             where = '%s:%s' % (g.get('file', '?').replace('/repo/', ''), g.get('line', '?'))
+            if g['constant'] and not g['decl'] and not g['tls'] and g['linkage'] == 'local' and g['name'].startswith('.str'):
+                nstr += 1; continue          # anonymous string literals: counted once below
             if g['tls']:
                 rep.fail('no thread-local storage', where, g['name'])
             elif g['decl'] and not g['constant']:
@@ -63,6 +66,7 @@ def frame(ctx, rep, cfgs=None):
                 rep.ok('global %s: %s' % (g['name'], 'constant' if g['constant'] else 'mutable (writers checked by FRAME-2)'),
                        None if g['constant'] else {'global': g['name'], 'mutable': True, 'config': cfg})
 
+        rep.ok('%d anonymous string-literal constants (word lists, names) are read-only data' % nstr)
         rep.rule('FRAME-2', 'every store / memset / memcpy / output argument of an external or injected call whose target '
                  'may be a non-constant global lies in a function reachable only from polyseed_inject / '
                  'polyseed_enable_features (never from a per-seed API function); every write target resolves to a '
